@@ -5,12 +5,18 @@
    Declarative reading: Emerge/SpecWf.v ([wf_spec], [defs_of], written over the declaration list only).
    UNIVERSAL: an accepted specification has exactly one definition for every terminal of its grammar;
    Definitions() is a permutation of the singly-defined terminals.
+   UNIVERSAL TOO (Emerge/SpecTable.v, a refinement of the terminal table to the declaration list): whatever the
+   order of the declarations, every terminal of the table carries exactly the definitions the declaration
+   list gives its name - the declared strings / patterns / expansions of predefined names for a token, the
+   literal itself for a string literal - and the table has an entry for exactly the names that are defined or
+   used; hence an accepted specification gives every terminal THE declared definition, not just some single one.
    PER SPECIFICATION (kernel-evaluated in gen/cases_C07_*.v): the model's verdict equals the declarative
    well-formedness and its definition list equals the declarative one — claimed only under
    [names_distinct] (known finding D7: a token and a literal with the same text are one terminal) — and
    verdict, diagnostics (kind, symbol) and definition list equal those of spec.Parse / Spec.DFA. *)
 From Coq Require Import String List Bool NArith Permutation.
-From Verif Require Import Cfg.Ebnf Cfg.Translate Emerge.SpecModel Emerge.SpecWf Emerge.Pipeline.
+From Verif Require Import Cfg.Ebnf Cfg.Translate Emerge.SpecModel Emerge.SpecWf Emerge.SpecTable Emerge.Pipeline.
+From VerifGen Require Import RuneGo.
 Import ListNotations.
 
 Theorem accepted_has_one_definition_per_terminal :
@@ -23,6 +29,84 @@ Theorem definition_list_is_exact :
   forall ds, Permutation (definitions (translate_spec ds)) (single_defs (translate_spec ds)).
 Proof. intros ds. apply definitions_are_the_single_defs. Qed.
 Print Assumptions definition_list_is_exact.
+
+(* the terminal table refines the declaration list: every entry carries exactly the declarative definitions of its
+   name, for EVERY declaration list in any order (premise: no literal shares its text with a token name, D7) *)
+Theorem every_terminal_carries_the_declared_definitions :
+  forall ds, spec_names_distinct ds = true ->
+    forall e, In e (s_terms (translate_spec ds)) -> te_defs e = defs_of predefs_s ds (te_name e).
+Proof. intros ds H e He. exact (entry_carries_the_declarations terminal_names predefs_s ds e H He). Qed.
+Print Assumptions every_terminal_carries_the_declared_definitions.
+
+(* ... so an accepted specification gives every terminal its one DECLARED definition *)
+Theorem accepted_terminal_has_the_declared_definition :
+  forall ds, spec_names_distinct ds = true -> spec_diags ds = [] ->
+    forall e, In e (s_terms (translate_spec ds)) ->
+      exists d, defs_of predefs_s ds (te_name e) = [d] /\ te_defs e = [d].
+Proof.
+  intros ds Hn Hd e He.
+  destruct (accepted_one_definition_each _ Hd e He) as [v [r Hvr]].
+  exists (v, r). split; [|exact Hvr].
+  rewrite <- (entry_carries_the_declarations terminal_names predefs_s ds e Hn He). exact Hvr.
+Qed.
+Print Assumptions accepted_terminal_has_the_declared_definition.
+
+(* a string literal used in a rule or directive defines itself *)
+Theorem string_literal_defines_itself :
+  forall ds a, spec_names_distinct ds = true -> In (a, true) (used_terms ds) ->
+    defs_in (s_terms (translate_spec ds)) a = [(a, false)].
+Proof.
+  intros ds a Hn Hu. unfold translate_spec. rewrite (table_carries_the_declarations terminal_names predefs_s ds a Hn).
+  assert (Hl : lit_used ds a = true).
+  { unfold lit_used. apply existsb_exists. exists (a, true). split; [exact Hu | simpl; rewrite String.eqb_refl; reflexivity]. }
+  rewrite defs_of_split, Hl.
+  destruct (distinct_literal predefs_s ds a Hn Hl) as [Hnodecl _].
+  assert (Hnil : declared_defs predefs_s ds a = []).
+  { unfold declared_defs. apply flat_map_nil_all. intros [n o] Hin. simpl.
+    destruct (String.eqb n a) eqn:E; [|reflexivity]. apply String.eqb_eq in E. subst n. destruct (Hnodecl o Hin). }
+  rewrite Hnil. reflexivity.
+Qed.
+Print Assumptions string_literal_defines_itself.
+
+(* a name that is never written as a literal carries its declarations, in source order: the declared string, the
+   declared pattern, the expansion of the predefined name looked up in the (translated) table of predefined patterns *)
+Theorem named_token_carries_its_declarations :
+  forall ds a, spec_names_distinct ds = true -> lit_used ds a = false ->
+    defs_in (s_terms (translate_spec ds)) a = declared_defs predefs_s ds a.
+Proof.
+  intros ds a Hn Hl. unfold translate_spec. rewrite (table_carries_the_declarations terminal_names predefs_s ds a Hn).
+  rewrite defs_of_split, Hl. apply app_nil_r.
+Qed.
+Print Assumptions named_token_carries_its_declarations.
+
+(* the table has an entry for exactly the names that are defined (with a known value) or used *)
+Theorem table_has_exactly_the_defined_and_used_names :
+  forall ds a, In a (map te_name (s_terms (translate_spec ds))) <->
+    (exists d, In (a, Some d) (declared predefs_s ds)) \/ (exists lit, In (a, lit) (used_terms ds)).
+Proof. intros ds a. exact (table_names terminal_names predefs_s ds a). Qed.
+Print Assumptions table_has_exactly_the_defined_and_used_names.
+
+(* the diagnostics name a problem that is present and none that is not, for three of the listed defects, for EVERY
+   declaration list: "no definition" is reported for a name iff the name occurs and the declarations give it none ... *)
+Theorem no_definition_is_reported_iff_a_token_is_used_without_one :
+  forall ds a, spec_names_distinct ds = true ->
+    (In (NoDefinition a) (spec_diags ds) <-> in_table predefs_s ds a /\ defs_of predefs_s ds a = []).
+Proof. intros ds a H. exact (no_definition_reported_iff terminal_names predefs_s ds a H). Qed.
+Print Assumptions no_definition_is_reported_iff_a_token_is_used_without_one.
+
+(* ... "multiple definitions" iff the declarations give the name two or more ... *)
+Theorem multiple_definitions_are_reported_iff_there_are_several :
+  forall ds a, spec_names_distinct ds = true ->
+    (In (MultipleDefinitions a) (spec_diags ds) <-> 2 <= List.length (defs_of predefs_s ds a)).
+Proof. intros ds a H. exact (multiple_definitions_reported_iff terminal_names predefs_s ds a H). Qed.
+Print Assumptions multiple_definitions_are_reported_iff_there_are_several.
+
+(* ... and "invalid predefined regex" iff that name is written in a token declaration and is not in the table of
+   predefined patterns (no premise) *)
+Theorem unknown_predefined_name_is_reported_iff_written :
+  forall ds v, In (InvalidPredef v) (spec_diags ds) <-> In v (unknown_predefs predefs_s ds).
+Proof. intros ds v. exact (unknown_predef_reported_iff terminal_names predefs_s ds v). Qed.
+Print Assumptions unknown_predefined_name_is_reported_iff_written.
 
 Fixpoint cp (s : string) : list N :=
   match s with EmptyString => [] | String a t => Ascii.N_of_ascii a :: cp t end.
@@ -40,6 +124,17 @@ Example verdict_examples :
   /\ diags "grammar g; a = ""x"";" = Some [NoStartRule]
   /\ diags "grammar g; start = ""x"" ""y""; @left ""x""; @right ""x"" ""y"";" = Some [HandleInTwoLevels].
 Proof. vm_compute. repeat split; reflexivity. Qed.
+
+(* non-vacuity: a specification with a literal, a string token, a pattern token and a predefined name, declared
+   after their use, satisfies the premise and its table has the four declared definitions *)
+Example declared_definitions_example :
+  match front (cp "grammar g; start = ""+"" AA BB CC; AA = ""a""; BB = /b+/; CC = $DIGIT;") with
+  | FSpec _ ds => spec_names_distinct ds && match spec_diags ds with [] => true | _ => false end
+                  && Nat.eqb (List.length (s_terms (translate_spec ds))) 4
+                  && forallb (fun e => Nat.eqb (List.length (te_defs e)) 1) (s_terms (translate_spec ds))
+  | _ => false
+  end = true.
+Proof. vm_compute. reflexivity. Qed.
 
 (* D7: token IF = "if" together with the literal "IF": the literal silently takes the token's value *)
 Example name_clash_refuted :
